@@ -13,15 +13,26 @@
     those subtrees unchanged, cache for cache;
   * dynamic SGE's on-demand extension — existing genes never change (prefix-monotone).
 
-  Everything else (object identity, cached phenotype / fitness, sharing graph) is established on
-  the implementation by the deep snapshots of `harness/props/c09.py`.
+  * the gene CONTAINERS of the linear and structured representations, as objects: `Model/Heap.lean` is a
+    heap of gene-list objects and genotype dictionaries on which GE / stack / SGE / dynamic-SGE `create`,
+    `mutate`, `crossover` and the dynamic-SGE mapping are written as the allocations, copies and in-place
+    writes the code performs.  Proved for every operation sequence: no sharing ever arises
+    (`C09_heap_no_sharing_ever`), every genotype object that is not handed to the dynamic-SGE mapping reads
+    the same afterwards (`C09_heap_inputs_unchanged`), a mapped one is only extended
+    (`C09_heap_mapping_only_extends`), and the other operators write into nothing that existed before
+    (`C09_heap_operators_only_allocate`).  The harness compares the model's object graph with the real
+    one (`id()` of every gene list, addresses renamed by first occurrence) after every operation.
+
+  Everything else (cached phenotype / fitness, tree-node sharing) is established on the implementation
+  by the deep snapshots of `harness/props/c09.py`.
 -/
 import GEVerif.Props.C11
 import GEVerif.Props.C07
 import GEVerif.Props.C06
+import GEVerif.Lemmas.Heap
 
 namespace GEVerif.C09
-open GEVerif
+open GEVerif GEVerif.Heap
 
 /-- Relabelling a fully labelled (parental) tree writes nothing: the result is the identical
 tree, every cache included. -/
@@ -43,5 +54,111 @@ theorem C09_dsge_mapping_only_extends (g : Grammar) (maxDepth fuel : Nat) (dna :
 theorem C09_ge_mapping_keeps_genotype (g : Grammar) (dec : Decider) (fuel : Nat) (dna : List Int) (e : Bool) :
     ∃ y, (mapGE g dec fuel dna e).state.src = AnySrc.gene y ∧ y.dna = dna :=
   (C07.C07_mapGE_deterministic g dec fuel dna e).2
+
+
+/-! ### The object level: gene containers of the linear and structured representations (`Model/Heap.lean`)
+
+`Heap.run h ops` executes any sequence of `create`, `mutate`, `crossover` (GE / stack, SGE, dynamic SGE) and dynamic-SGE
+mappings on a heap of gene-list objects and genotype dictionaries.  `g` ranges over ALL genotype objects ever made
+(the population, its ancestors, offspring that were discarded). -/
+
+/-- No sharing, ever: starting from the empty heap (or any heap without sharing), after any sequence of operations no
+gene-list object belongs to two genotypes or to two keys of one genotype, and no genotype refers to an object that
+does not exist.  ("Offspring may share sub-structures with their parents only in ways that later operations never
+mutate": for these representations they share nothing.) -/
+theorem C09_heap_no_sharing_ever (ops : List Op) : Sep (run empty ops) := run_sep sep_empty ops
+
+theorem C09_heap_sep_invariant {h : Heap} (s : Sep h) (ops : List Op) : Sep (run h ops) := run_sep s ops
+
+/-- what `Sep` says about two different genotype objects: they own different gene-list objects -/
+theorem C09_heap_distinct_genotypes_disjoint {h : Heap} (s : Sep h) {g g' a : Nat} (hne : g ≠ g')
+    (h1 : a ∈ addrs (h.genoAt g)) : a ∉ addrs (h.genoAt g') := fun h2 => s.disjoint hne h1 h2
+
+/-- Inputs are never modified: a genotype object that exists now reads exactly the same -- same keys in the same order,
+same genes -- after ANY sequence of operations on it and on everything else, provided it is not itself handed to
+the dynamic-SGE mapping (the one operation that is allowed to extend its argument).  Parents of mutations and
+crossovers, however often they are used, and genotypes mapped by GE / SGE / stack are covered: those operations
+have no in-place target at all. -/
+theorem C09_heap_inputs_unchanged {h : Heap} (s : Sep h) (ops : List Op) {g : Nat} (hg : g < h.genos.length)
+    (hno : ∀ op ∈ ops, op.target ≠ some g) : (run h ops).view g = h.view g := run_frame s ops hg hno
+
+/-- ... and a genotype that IS mapped (dynamic SGE) is only ever extended: every key keeps its position and every
+gene list is a prefix of what it becomes; no existing gene changes, whatever else happens in between.
+(No separation hypothesis: this holds of every heap.) -/
+theorem C09_heap_mapping_only_extends (h : Heap) (ops : List Op) (g i k : Nat) (l : List Int)
+    (hv : (h.view g)[i]? = some (k, l)) : ∃ l', ((run h ops).view g)[i]? = some (k, l') ∧ l <+: l' :=
+  (run_grows h ops).view g i k l hv
+
+/-- the operators that are not the dynamic-SGE mapping write into nothing that existed before the call: every
+gene-list object and every genotype object of the heap is identical afterwards (object for object, not just
+through the genotypes that are still in use) -/
+theorem C09_heap_operators_only_allocate (h : Heap) (op : Op) (hno : op.target = none) :
+    ∃ ls gs, (step h op).lists = h.lists ++ ls ∧ (step h op).genos = h.genos ++ gs := by
+  rcases step_fresh_or_map h op with e | ⟨g, ext, rfl⟩
+  · obtain ⟨ls, gs, h1, h2, -, -⟩ := e; exact ⟨ls, gs, h1, h2⟩
+  · simp [Op.target] at hno
+
+/-! refinement: the object-level operators compute the genes of the value-level operators of `Model/Linear.lean` -/
+
+/-- a well-formed GE / stack genotype object: one key, a gene list that exists -/
+def FlatAt (h : Heap) (g : Nat) (dna : List Int) : Prop :=
+  ∃ a, h.genos[g]? = some [(0, a)] ∧ h.lists[a]? = some dna
+
+theorem C09_heap_flat_mutate_refines {h : Heap} {g : Nat} {dna : List Int} (w : FlatAt h g dna) (r : Nat) (v : Int) :
+    FlatAt (flatMutate h g r v) h.genos.length (dna.set r v) ∧ FlatAt (flatMutate h g r v) g dna := by
+  obtain ⟨a, hg, ha⟩ := w
+  have hgl : g < h.genos.length := (List.getElem?_eq_some_iff.1 hg).1
+  have hal : a < h.lists.length := (List.getElem?_eq_some_iff.1 ha).1
+  have e1 : h.genoAt g = [(0, a)] := by simp [Heap.genoAt, hg]
+  have e2 : h.listAt a = dna := by simp [Heap.listAt, ha]
+  refine ⟨⟨h.lists.length, ?_, ?_⟩, ⟨a, ?_, ?_⟩⟩
+  · simp [flatMutate, Heap.allocGeno, Heap.setItem, Heap.allocList]
+  · simp [flatMutate, e1, dictGet, Heap.allocGeno, Heap.setItem, Heap.allocList, Heap.listAt, ha]
+  · simp [flatMutate, Heap.allocGeno, Heap.setItem, Heap.allocList, List.getElem?_append_left hgl, hg]
+  · simp only [flatMutate, Heap.allocGeno, Heap.setItem, Heap.allocList, List.getElem?_set]
+    rw [if_neg (by omega), List.getElem?_append_left hal, ha]
+
+theorem C09_heap_flat_crossover_refines {h : Heap} {g1 g2 : Nat} {p1 p2 : List Int} (w1 : FlatAt h g1 p1) (w2 : FlatAt h g2 p2)
+    (cut : Nat) :
+    FlatAt (flatCrossover h g1 g2 cut) h.genos.length (p1.take cut ++ p2.drop cut) ∧
+    FlatAt (flatCrossover h g1 g2 cut) (h.genos.length + 1) (p2.take cut ++ p1.drop cut) ∧
+    FlatAt (flatCrossover h g1 g2 cut) g1 p1 ∧ FlatAt (flatCrossover h g1 g2 cut) g2 p2 := by
+  obtain ⟨a1, hg1, ha1⟩ := w1
+  obtain ⟨a2, hg2, ha2⟩ := w2
+  have hgl1 : g1 < h.genos.length := (List.getElem?_eq_some_iff.1 hg1).1
+  have hgl2 : g2 < h.genos.length := (List.getElem?_eq_some_iff.1 hg2).1
+  have hal1 : a1 < h.lists.length := (List.getElem?_eq_some_iff.1 ha1).1
+  have hal2 : a2 < h.lists.length := (List.getElem?_eq_some_iff.1 ha2).1
+  have e1 : h.genoAt g1 = [(0, a1)] := by simp [Heap.genoAt, hg1]
+  have e2 : h.genoAt g2 = [(0, a2)] := by simp [Heap.genoAt, hg2]
+  have f1 : h.listAt a1 = p1 := by simp [Heap.listAt, ha1]
+  have f2 : h.listAt a2 = p2 := by simp [Heap.listAt, ha2]
+  simp only [flatCrossover, e1, e2, dictGet, List.find?_cons, BEq.rfl, Option.map_some, Option.getD_some, f1, f2,
+    Heap.allocList, Heap.allocGeno]
+  refine ⟨⟨h.lists.length, ?_, ?_⟩, ⟨h.lists.length + 1, ?_, ?_⟩, ⟨a1, ?_, ?_⟩, ⟨a2, ?_, ?_⟩⟩
+  · simp
+  · simp
+  · simp
+  · simp
+  · simp [List.getElem?_append_left hgl1, hg1]
+  · rw [List.append_assoc, List.getElem?_append_left hal1, ha1]
+  · simp [List.getElem?_append_left hgl2, hg2]
+  · rw [List.append_assoc, List.getElem?_append_left hal2, ha2]
+
+/-! non-vacuity: a history with every kind of operation; the mapped genotype (#2) grows, its parent (#0) and its sibling
+do not, nothing is shared -/
+def demoOps : List Op :=
+  [.structCreate [(7, [1, 2]), (8, [3])], .structCreate [(7, [4, 5]), (9, [])],
+   .structCrossover 0 1 [true, false], .dsgeMap 2 [(7, [6]), (5, [0, 0])], .structMutate 2 (some (0, 2, 99)),
+   .flatCreate [1, 2, 3], .flatMutate 5 1 42, .flatCrossover 5 6 2]
+
+example : (run empty demoOps).view 0 = [(7, [1, 2]), (8, [3])] := by decide
+example : (run empty demoOps).view 2 = [(7, [1, 2, 6]), (8, []), (5, [0, 0])] := by decide
+example : (run empty demoOps).view 4 = [(7, [1, 2, 99]), (8, []), (5, [0, 0])] := by decide
+example : (run empty demoOps).view 6 = [(0, [1, 42, 3])] := by decide
+example : (run empty demoOps).view 8 = [(0, [1, 42, 3])] := by decide
+example : (allAddrs (run empty demoOps)).Nodup := by decide
+example : ∀ op ∈ demoOps, op.target ≠ some 0 := by decide
+
 
 end GEVerif.C09
